@@ -47,7 +47,7 @@ META = dict(
                  "time_threshold, custom_gradnorm and optax_wrapper not exercised"],
     need=["eager_runs", "static_runs", "trust_runs", "no_uphill_checks", "negcurv_experiments",
           "reset_experiments", "eager_static_comparisons", "trust_iterate_checks"],
-    quick=dict(cases=320, workers=8, budget_s=90),
+    quick=dict(cases=240, workers=8, budget_s=90),
     thorough=dict(cases=3000, workers=16, budget_s=800),
     design_ref="DESIGN.md §5 C17",
     level_text=("generated objectives x start classes x options, every result re-evaluated independently; "
@@ -111,12 +111,17 @@ def get_obj(ck, fam, layname):
 
 
 # ------------------------------------------------------------------ structure ---
-def draw_structure(rng, pool):
-    """the part of a case that is compiled into the harness jit of the compiled variants"""
+KINDS = ["plain", "plain", "reset", "plain", "plain", "badmetric", "plain", "plain",
+         "plain", "reset", "plain", "plain", "plain", "plain", "reset", "badmetric"]
+
+
+def draw_structure(rng, pool, r):
+    """the part of a case that is compiled into the harness jit of the compiled variants; the
+    kind is tied to the residue class so that every run covers all kinds"""
     s = {}
     s["layout"] = str(rng.choice(pool))
     n = rs.layout(s["layout"]).n
-    s["kind"] = str(rng.choice(["plain", "reset", "badmetric"], p=[0.72, 0.2, 0.08]))
+    s["kind"] = KINDS[r % 16]
     fams = ["trig", "dwell", "iquad", "rosen"] + (["zcurv"] if n >= 2 else [])
     pf = np.array([0.3, 0.25, 0.25, 0.1] + ([0.1] if n >= 2 else []))
     s["fam"] = str(rng.choice(fams, p=pf / pf.sum()))
@@ -127,7 +132,7 @@ def draw_structure(rng, pool):
     s["erf"] = bool(rng.integers(0, 4) > 0)            # energy_reduction_factor given / None
     s["cgk"] = str(rng.choice(["none", "maxiter", "miniter"], p=[0.7, 0.15, 0.15])) \
         if s["kind"] == "plain" else "none"
-    s["trust"] = bool(s["kind"] == "plain" and rng.integers(0, 2))
+    s["trust"] = bool(s["kind"] == "plain" and r % 2 == 0)
     return s
 
 
@@ -344,9 +349,9 @@ def check_basic(ck, tag, res, F, f0, fscale, start):
 
 def _case(ck, i):
     r = i % 16
-    u = int(ck.rng().integers(0, ck.pick(2, 12)))
+    u = int(ck.rng().integers(0, ck.pick(1, 10)))
     pool = [LAYS[(3 * r + k) % len(LAYS)] for k in range(2)]
-    s = draw_structure(ck.rng(100000 + r, u), pool)
+    s = draw_structure(ck.rng(100000 + r, u), pool, r)
     rng = ck.rng(i, 1)
     start = draw_start(rng, s)
     o, p, x0 = draw_problem(ck, rng, s, start)
@@ -469,35 +474,50 @@ def _case(ck, i):
         trmax = float(rng.choice([1000.0, 2.0, 0.5]))
         tr0 = float(min(rng.choice([1.0, 0.1, 0.3]), 0.5 * trmax))
         gtol = float(rng.choice([1e-4, 1e-8]))
-        prev = None
-        for m in range(0, M + 1):
+        desc["trust"] = dict(M=M, trmax=trmax, tr0=tr0, gtol=gtol)
+
+        def trust(xs, m, tr, trm, old):
             ck.hit("trust_runs")
-            x, fun, status, nit, tr, succ = tf(p, x0, dict(maxiter=m, gtol=gtol,
-                                                          initial_trust_radius=tr0,
-                                                          max_trust_radius=trmax))
+            x, fun, status, nit, trr, succ = tf(p, xs, dict(maxiter=m, gtol=gtol, old_fval=old,
+                                                           initial_trust_radius=tr, max_trust_radius=trm))
             x = np.asarray(x)
-            fx = F(x)
-            cur = dict(x=x, f=fx, nit=int(nit), tr=float(tr), status=int(status))
+            return dict(x=x, f=F(x), fun=float(fun), nit=int(nit), tr=float(trr), status=int(status))
+
+        hist = []
+        for m in range(0, M + 1):
+            cur = trust(x0, m, tr0, trmax, np.nan)
             ck.hit("trust_iterate_checks")
-            if abs(float(fun) - fx) > 1e-9 * (abs(fx) + 1.0):
+            if abs(cur["fun"] - cur["f"]) > 1e-9 * (abs(cur["f"]) + 1.0):
                 ck.violation("trust-ncg:fun-mismatch", "OptimizeResults.fun != f(OptimizeResults.x)",
-                             fun=float(fun), f_of_x=fx)
-            if fx > f0 + 1e-12 * fscale:
+                             fun=cur["fun"], f_of_x=cur["f"])
+            if cur["f"] > f0 + 1e-12 * fscale:
                 ck.violation("trust-ncg:uphill", "trust-region Newton-CG returned a point with higher "
-                             "energy than its start", f_start=f0, f_result=fx, maxiter=m, status=int(status))
+                             "energy than its start", f_start=f0, f_result=cur["f"], maxiter=m,
+                             status=cur["status"])
                 break
             if not (0.0 < cur["tr"] <= trmax * (1 + 1e-12)):
                 ck.violation("trust-ncg:radius-out-of-range", "trust radius left (0, max_trust_radius]",
                              trust_radius=cur["tr"], max_trust_radius=trmax, maxiter=m)
                 break
-            if prev is not None and cur["nit"] == prev["nit"] + 1:
-                if fx > prev["f"] + 1e-12 * fscale:
+            if hist and cur["nit"] == hist[-1]["nit"] + 1 and \
+                    cur["f"] > hist[-1]["f"] + 1e-12 * fscale:
+                # an iterate went up: restart the real minimiser *at* the predecessor with the
+                # state it had there (radius, previous energy) - the statement is about starts
+                pv = hist[-1]
+                old = hist[-2]["f"] if len(hist) >= 2 else np.nan
+                re = trust(pv["x"], 1, pv["tr"], 2.0 * max(trmax, pv["tr"]), old)
+                if re["f"] > pv["f"] + 1e-12 * fscale:
+                    ck.violation("trust-ncg:uphill", "trust-region Newton-CG (maxiter=1) returned a "
+                                 "point with higher energy than its start", f_start=pv["f"],
+                                 f_result=re["f"], status=re["status"], trust_radius=pv["tr"],
+                                 found_at_iteration=m)
+                else:
                     ck.violation("trust-ncg:iterate-increase", "an accepted trust-region iterate has "
-                                 "higher energy than its predecessor", f_prev=prev["f"], f_next=fx,
+                                 "higher energy than its predecessor", f_prev=pv["f"], f_next=cur["f"],
                                  iteration=m)
-                    break
-            if prev is not None and cur["nit"] == prev["nit"]:
+                break
+            if hist and cur["nit"] == hist[-1]["nit"]:
                 break          # finished before the limit
-            prev = cur
+            hist.append(cur)
     nontriv = nontriv or (eg["nit"] >= 2 and eg["nfev"] - 1 - eg["nit"] > 0)
     ck.note(desc, nontrivial=bool(nontriv), klass=klass)
